@@ -73,9 +73,10 @@ func templateSpec(f fileDesc) *specs.Spec {
 		}
 	}
 	if f.Variant&1 != 0 {
+		// without Rich the Spec-level edits consist of the RDT class (and, for some, supplementary groups) alone
 		s.ContainerEdits.IntelRdt = &specs.IntelRdt{ClosID: "spec-" + f.Tag, L3CacheSchema: "L3:0=f"}
-		if len(s.ContainerEdits.Env) == 0 {
-			s.ContainerEdits.Env = []string{"RDT=" + f.Tag}
+		if f.Variant&4 != 0 {
+			s.ContainerEdits.AdditionalGIDs = []uint32{uint32(40 + len(f.Tag))}
 		}
 	}
 	if f.Variant&8 != 0 {
@@ -202,6 +203,9 @@ func genLayout(rng *rand.Rand) layoutDesc {
 		l.Phys[p] = files
 	}
 	nd := 1 + rng.Intn(4)
+	if rng.Intn(25) == 0 {
+		nd = 0 // an explicitly empty directory list
+	}
 	for i := 0; i < nd; i++ {
 		switch r := rng.Intn(14); {
 		case r < 9:
@@ -240,6 +244,7 @@ func (cacheStream) Generate(rng *rand.Rand, tier string, emit func(Case)) {
 			layoutDesc{Phys: map[string][]fileDesc{"A": files, "B": single}, Dirs: []string{"p:A", "p:B"}},
 			layoutDesc{Phys: map[string][]fileDesc{"A": files, "B": single}, Dirs: []string{"p:A", "p:B", "p:A"}})
 	}
+	fixed = append(fixed, layoutDesc{Phys: map[string][]fileDesc{}, Dirs: nil})
 	for i := 0; i < n+len(fixed); i++ {
 		var l layoutDesc
 		if i < len(fixed) {
@@ -294,6 +299,11 @@ func (cacheStream) Generate(rng *rand.Rand, tier string, emit func(Case)) {
 				}
 			}
 			emit(Case{"op": "inject", "layout": lm, "req": hxList(req), "niloci": rng.Intn(15) == 0, "ocikind": rng.Intn(3)})
+			if i%4 == 0 && k == 0 {
+				// the same request on an auto-refresh cache that was created before the directories existed: the
+				// injection itself has to notice them and refresh
+				emit(Case{"op": "inject", "layout": lm, "req": hxList(req), "niloci": false, "ocikind": rng.Intn(3), "latedirs": true})
+			}
 		}
 	}
 }
@@ -458,10 +468,13 @@ func (cacheStream) Execute(c Case) {
 		_ = json.Unmarshal(lj, &l)
 		var view []any
 		dirs, view = materialize(l)
+		if view == nil {
+			view = []any{} // an empty directory list
+		}
 		c["dirs"] = view
 		if drop, _ := c["dropuid"].(bool); drop {
 			// the scan runs in a child process without privileges, so that permission bits bite
-			for _, k := range []string{"devices", "vendors", "classes", "errorkeys", "resolve", "vendorspecs"} {
+			for _, k := range []string{"devices", "vendors", "classes", "errorkeys", "resolve", "vendorspecs", "specdirs"} {
 				obs[k] = []any{}
 			}
 			obs["refresherr"] = false
@@ -490,7 +503,7 @@ func (cacheStream) Execute(c Case) {
 	defer func() {
 		if r := recover(); r != nil {
 			obs["panic"] = true
-			for _, k := range []string{"devices", "vendors", "classes", "errorkeys", "resolve", "vendorspecs", "unresolved"} {
+			for _, k := range []string{"devices", "vendors", "classes", "errorkeys", "resolve", "vendorspecs", "unresolved", "specdirs"} {
 				if _, ok := obs[k]; !ok {
 					obs[k] = []any{}
 				}
@@ -503,16 +516,32 @@ func (cacheStream) Execute(c Case) {
 		}
 	}()
 	auto, _ := c["auto"].(bool)
-	cache, _ := cdi.NewCache(cdi.WithSpecDirs(dirs...), cdi.WithAutoRefresh(auto))
+	var cache *cdi.Cache
+	if late, _ := c["latedirs"].(bool); late {
+		// hide the tree while the cache is created, then bring it back
+		hidden := cacheRoot + ".hidden"
+		_ = os.RemoveAll(hidden)
+		_ = os.Rename(cacheRoot, hidden)
+		cache, _ = cdi.NewCache(cdi.WithSpecDirs(dirs...), cdi.WithAutoRefresh(true))
+		_ = os.Rename(hidden, cacheRoot)
+		defer func() { _ = cache.Configure(cdi.WithAutoRefresh(false)) }()
+		c["op"] = "inject"
+	} else {
+		cache, _ = cdi.NewCache(cdi.WithSpecDirs(dirs...), cdi.WithAutoRefresh(auto))
+	}
 	if auto {
 		defer func() { _ = cache.Configure(cdi.WithAutoRefresh(false)) }()
 	}
-	rerr := cache.Refresh()
+	var rerr error
+	if late, _ := c["latedirs"].(bool); !late {
+		rerr = cache.Refresh()
+	}
 	switch c["op"] {
 	case "refresh":
 		obs["refresherr"] = rerr != nil
 		obs["devices"] = hxList(cache.ListDevices())
 		obs["vendors"] = hxList(cache.ListVendors())
+		obs["specdirs"] = hxList(cache.GetSpecDirectories())
 		obs["classes"] = hxList(cache.ListClasses())
 		var keys []string
 		monitoring := cache.GetSpecDirErrors() // directory-monitoring errors of auto-refresh mode are not file errors
